@@ -242,3 +242,27 @@ func (a Alphabet) Prologue(r *rt.Rand) []Op {
 	}
 	return ops
 }
+
+// GenOpM is GenOp biased by the current registry: it sometimes re-registers an
+// existing pipeline with the identical definition, or re-registers a node id
+// that a registered pipeline lists (the histories in which stale captures matter).
+func (a Alphabet) GenOpM(r *rt.Rand, m *Model) Op {
+	if len(m.pipes) > 0 {
+		switch x := r.Intn(100); {
+		case x < 10:
+			ps := m.PipesOf(rt.Pick(r, a.Types))
+			if len(ps) > 0 {
+				p := rt.Pick(r, ps)
+				return Op{Kind: "regpipe", Type: p.typ, Pid: p.pid, IDs: append([]string(nil), p.ids...), Policy: a.pol(r)}
+			}
+		case x < 18:
+			ps := m.PipesOf(rt.Pick(r, a.Types))
+			if len(ps) > 0 {
+				p := rt.Pick(r, ps)
+				id := rt.Pick(r, p.ids)
+				return Op{Kind: "regnode", ID: id, NT: a.nodeTypeOf(id, r), Policy: a.pol(r)}
+			}
+		}
+	}
+	return a.GenOp(r)
+}
